@@ -455,7 +455,7 @@ def world_term(case, facts):
             im = fi           # descriptor.proto, any.proto
         if any(a not in pid for a, _ in im):
             return None, None, ("import missing from facts", p)
-        vs.append("mkV %d [%s] [] []" % (pid[p], "; ".join("(%d, %s)" % (pid[a], coq_bool(pb)) for a, pb in im)))
+        vs.append("mkV %d [%s] [] [] []" % (pid[p], "; ".join("(%d, %s)" % (pid[a], coq_bool(pb)) for a, pb in im)))
         # only symbols a lookup of this file can name: every lookup asks for X or <scope>.X where X is
         # a reference as written (leading dot stripped) or its first component
         syms = [sy for sy in facts[p]["syms"] if any(sy[0] == x or sy[0].endswith("." + x) for x in case["_xs"])]
